@@ -281,6 +281,16 @@ func (r *Recorder) History() []Event {
 	return append([]Event(nil), r.Events...)
 }
 
+// Since returns a copy of the events recorded after the first n.
+func (r *Recorder) Since(n int) []Event {
+	r.mu.Lock()
+	defer r.mu.Unlock()
+	if n > len(r.Events) {
+		n = len(r.Events)
+	}
+	return append([]Event(nil), r.Events[n:]...)
+}
+
 // Judge feeds a saved history to fresh oracles (deterministic re-judgement).
 func Judge(history []Event, oracles ...Oracle) []Violation {
 	var out []Violation
